@@ -154,3 +154,81 @@ class Zygote:
             self.proc.wait(timeout=10)
         except Exception:
             self.proc.kill()
+
+
+CLI_ZYGOTE_SRC = r'''
+import contextlib, io, json, os, sys
+sys.setrecursionlimit(2500)
+import logging
+import celpy, celpy.__main__ as cli
+from vf import fresh
+fresh.speed_up_parser_construction()
+
+def one(req):
+    out, err = io.StringIO(), io.StringIO()
+    sys.stdin = io.StringIO(req["stdin"])
+    with contextlib.redirect_stdout(out), contextlib.redirect_stderr(err):
+        try:
+            status = cli.main(req["argv"])
+        except SystemExit as ex:
+            status = ["SystemExit", ex.code]
+        except Exception as ex:
+            status = ["exception", type(ex).__name__]
+    return [status, out.getvalue(), err.getvalue()]
+
+for line in sys.stdin:
+    req = json.loads(line)
+    r, w = os.pipe()
+    pid = os.fork()
+    if pid == 0:
+        os.close(r)
+        try:
+            data = json.dumps(one(req))
+        except BaseException as ex:
+            data = json.dumps([["exception", "child-" + type(ex).__name__], "", ""])
+        os.write(w, data.encode())
+        os._exit(0)
+    os.close(w)
+    data = b""
+    while True:
+        chunk = os.read(r, 65536)
+        if not chunk:
+            break
+        data += chunk
+    os.close(r)
+    os.waitpid(pid, 0)
+    sys.__stdout__.write(data.decode() + "\n")
+    sys.__stdout__.flush()
+'''
+
+
+class CliZygote:
+    """`celpy` command line runs, each in a process forked from one that has imported the CLI module and never run it: a run cannot see what an
+    earlier run left behind in the process (caches, module globals)."""
+
+    def __init__(self) -> None:
+        self.proc = subprocess.Popen([sys.executable, "-c", CLI_ZYGOTE_SRC], stdin=subprocess.PIPE, stdout=subprocess.PIPE, stderr=subprocess.DEVNULL, text=True, env=dict(os.environ))
+        self.cache: Dict[str, Any] = {}
+        self.requests = 0
+
+    def run(self, argv, stdin_text: str = "") -> Tuple[Any, str, str]:
+        key = json.dumps({"argv": list(argv), "stdin": stdin_text})
+        if key not in self.cache:
+            self.requests += 1
+            assert self.proc.stdin and self.proc.stdout
+            self.proc.stdin.write(key + "\n")
+            self.proc.stdin.flush()
+            line = self.proc.stdout.readline()
+            if not line:
+                raise RuntimeError("CLI zygote died")
+            status, out, err = json.loads(line)
+            self.cache[key] = (tuple(status) if isinstance(status, list) else status, out, err)
+        return self.cache[key]
+
+    def close(self) -> None:
+        try:
+            if self.proc.stdin:
+                self.proc.stdin.close()
+            self.proc.wait(timeout=10)
+        except Exception:
+            self.proc.kill()
